@@ -29,7 +29,7 @@ BOUNDS = {"quick": {"max_nodes": 3, "max_dev": 2, "plus": "all 4-node DAGs with 
 CAP_S = {"quick": 150, "thorough": 2400}
 
 EDGE = ["none", "req", "g1", "g2", "opt"]
-ALTS = ["none", "skip", "error", "disabled", "seed"]
+ALTS = ["none", "skip", "error", "disabled", "seed", "seednone"]
 
 
 def shapes(n, edge_kinds=None):
@@ -57,6 +57,8 @@ def shape_to_nodes(n, shape, devs, t="plain"):
             nd["en"] = False
         elif d == "seed":
             nd["seed"] = True
+        elif d == "seednone":
+            nd["seed"] = "none"
         elif d != "value":
             nd["out"] = d
         nodes.append(nd)
@@ -67,6 +69,9 @@ def targets_for(n, tier):
     ts = [["node", i] for i in range(n)]
     ts += [["pair", i, j] for i in range(n) for j in range(i + 1, n)]
     ts += [["dict"], ["type"]]
+    # graphs that are NOT dependency-closed (hand-written dicts, group filters, popped nodes): only the keys take part
+    if n == 3:
+        ts += [["subdict", list(m)] for k in (1, 2) for m in itertools.combinations(range(n), k)]
     if n == 4:
         ts = [["node", 3], ["dict"], ["pair", 2, 3]]
     return ts
@@ -113,10 +118,14 @@ def check_case(case, res=None):
             elif tgt[0] == "dict":
                 comps = g.explicit_graph()
                 tix = list(range(n))
+            elif tgt[0] == "subdict":
+                full = g.explicit_graph()
+                comps = dict((g.nodes[i], full[g.nodes[i]]) for i in tgt[1])
+                tix = None
             else:
                 comps = G.TYPES[desc["nodes"][0]["t"]]
                 tix = list(range(n))
-            in_graph = G.closure(desc, tix)
+            in_graph = set(tgt[1]) if tix is None else G.closure(desc, tix)
             # (4) dependency closure
             if tgt[0] in ("node", "pair"):
                 dg = g.dep_graph(tix)
@@ -225,6 +234,8 @@ def run_unit(unit, tier):
         for devs in enumx.deviations(["value"] * n, [ALTS] * n, max_dev):
             nodes = shape_to_nodes(n, shape, devs, t)
             for tgt in tlist:
+                if tgt[0] == "subdict" and sum(1 for d in devs if d != "value") > 1:
+                    continue
                 case = {"nodes": nodes, "target": tgt, "perm": None}
                 try:
                     vio, norders = check_case(case, res)
